@@ -22,7 +22,7 @@ fn frames(level: usize) -> Vec<([Ex; 3], [Ex; 3])> {
 // ------------------------------------------------------------------ exact tier
 fn exact3(rep: &mut Report) {
     type T = Ex;
-    let fr = frames(0);
+    let fr = frames(if rep.quick() { 0 } else { 1 });
     for li in 0..3 {
         let lat = &ex::lattices()[li];
         let reach = (lat.reach() / 2).min(6);
@@ -160,7 +160,7 @@ fn angle_f(a: [f64; 3], b: [f64; 3]) -> f64 {
 }
 
 fn float3<T: Tier>(rep: &mut Report) {
-    let us = alphabet::uv3(rep.thorough());
+    let us = alphabet::uv3(true);
     let n = us.len();
     // pairs: all (a, b) from the list, plus near-(anti)parallel partners built in f64
     let near: [f64; 3] = [1e-9, 1e-6, 1e-3];
